@@ -97,8 +97,8 @@ func (d *verifK08Delegate) ResolveCheck(ctx context.Context, req *ResolveCheckRe
 	return d.resp, nil
 }
 
-func (d *verifK08Delegate) Close()                    {}
-func (d *verifK08Delegate) SetDelegate(CheckResolver) {}
+func (d *verifK08Delegate) Close()                     {}
+func (d *verifK08Delegate) SetDelegate(CheckResolver)  {}
 func (d *verifK08Delegate) GetDelegate() CheckResolver { return nil }
 
 // verifK08Instant is a symbolic instant lo..hi nanoseconds after the zero time.
